@@ -789,6 +789,72 @@ func (c *Ctx) retentionCancel(rule string) {
 						return
 					}
 				}
+				// the select sits in a helper the visitor calls (pause(ctx) bool): what the helper
+				// returns on the Done arm must make the visitor return false
+				if !visitorSig(fn) && fn.Signature.Results().Len() == 1 && isBool(fn.Signature.Results().At(0).Type()) {
+					var armVals []bool
+					okConst := true
+					eng.BlockReaches(arm, func(y ssa.Instruction) bool {
+						if ret, ok := y.(*ssa.Return); ok && y.Parent() == fn {
+							if b, isC := eng.ConstBool(eng.ReturnResults(ret)[0]); isC {
+								armVals = append(armVals, b)
+							} else {
+								okConst = false
+							}
+						}
+						return false
+					}, nil)
+					for _, cs := range p.StaticCallSites(fn) {
+						V := cs.Instr.Parent()
+						call, isCall := cs.Instr.(*ssa.Call)
+						if !visitorSig(V) || !isCall {
+							continue
+						}
+						if !okConst || len(armVals) == 0 {
+							r.Undecided(rule, cons, p.InstrPos(in), "cannot tell what %s returns to the visitor on ctx.Done()", shortFn(fn))
+							return
+						}
+						for _, k := range armVals {
+							// edges of V on which the helper's result is k; a visitor that returns the
+							// call itself returns k
+							badRet := ssa.Instruction(nil)
+							eng.EachInstr(V, func(y ssa.Instruction) {
+								ret, ok := y.(*ssa.Return)
+								if !ok || y.Parent() != V {
+									return
+								}
+								if eng.ReturnResults(ret)[0] == ssa.Value(call) && k {
+									badRet = y
+								}
+							})
+							for _, b := range V.Blocks {
+								for e := 0; e < len(b.Succs) && len(b.Succs) == 2; e++ {
+									v, pol, ok := eng.CondTruth(b, e)
+									if !ok || v != ssa.Value(call) || pol != k {
+										continue
+									}
+									if hit := eng.BlockReaches(b.Succs[e], func(y ssa.Instruction) bool {
+										ret, ok := y.(*ssa.Return)
+										if !ok {
+											return false
+										}
+										if eng.ReturnResults(ret)[0] == ssa.Value(call) {
+											return k
+										}
+										bv, isC := eng.ConstBool(eng.ReturnResults(ret)[0])
+										return !(isC && !bv)
+									}, nil); hit != nil {
+										badRet = hit
+									}
+								}
+							}
+							if badRet != nil {
+								r.Bad(rule, cons, p.InstrPos(in), "on ctx.Done() %s returns %v and the visitor %s then does not return false (at %s): the scan continues over the remaining mailboxes", shortFn(fn), k, shortFn(V), p.InstrPos(badRet))
+								return
+							}
+						}
+					}
+				}
 				r.Ok(rule, cons, p.InstrPos(in), "select observes ctx.Done() and leaves")
 			case *ssa.UnOp:
 				if x.Op == token.ARROW {
